@@ -30,6 +30,7 @@ type Obligation struct {
 	Output  string
 	ModelVs []*Term
 	Sub     []*Obligation // case split / per-return split
+	Retried  bool
 	OnlySubs bool         // the obligation is the conjunction of Sub; it is not tried as a whole: tried when the whole obligation is not proved quickly
 }
 
@@ -70,6 +71,17 @@ type FuncExec struct {
 	stableRefs map[string][]*Term
 	lastRets   []retInfo
 	varCache   map[int][]*Term
+	anchorHit  map[string]bool
+	chanKey    map[int]string
+	closures   map[int64]VFunc
+	tables     map[string]bool
+	loopPre    map[*ssa.BasicBlock]*State
+	frames     map[*ssa.Function]*frameSpec
+	invDepth   int
+	inGlobalInv bool
+	invSeen    map[int]bool
+	loopFrames map[*ssa.BasicBlock][]string
+	closureSeq int
 	discLog    []discWrite
 	discLogOn  int
 }
@@ -86,7 +98,7 @@ type autoInv struct {
 func (fx *FuncExec) autoInvariants(fn *ssa.Function, l *Loop, entry *State, wc map[*ssa.Alloc]bool) []autoInv {
 	ts := fx.ts
 	var out []autoInv
-	for a := range wc {
+	for _, a := range sortedAllocs(wc) {
 		a := a
 		if !fx.isCell(a) {
 			continue
@@ -236,6 +248,10 @@ func (fx *FuncExec) curName() string {
 
 func (fx *FuncExec) addObl(kind, label, src string, reach, goal *Term) *Obligation {
 	if fx.discover > 0 {
+		return nil
+	}
+	if kind == "ovf" && fx.con != nil && fx.con.Opts["noovf"] == "true" {
+		fx.note("ASSUMPTION: signed arithmetic in " + shortFuncName(fx.fn) + " is treated as mathematical (no overflow obligations generated)")
 		return nil
 	}
 	g := fx.ts.Implies(reach, goal)
@@ -497,9 +513,6 @@ func (fx *FuncExec) runBody(fn *ssa.Function, st *State, reach *Term, con *Contr
 	}
 	g := buildGraph(fn, loops)
 	var rets []retInfo
-	savedDefers := fx.deferred[fn]
-	fx.deferred[fn] = nil
-	defer func() { fx.deferred[fn] = savedDefers }()
 	for _, n := range g.order {
 		var conds []*Term
 		var sts []*State
@@ -616,6 +629,7 @@ type loopHeadInfo struct {
 	state   *State
 	reach   *Term
 	measure *Term
+	pre     *State // the state in which the loop was entered (before the write set was forgotten)
 }
 
 func (fx *FuncExec) setEdge(n *node, si int, cond *Term, st *State, fn *ssa.Function, con *Contract) {
@@ -664,9 +678,10 @@ func (fx *FuncExec) enterLoop(fn *ssa.Function, l *Loop, reach *Term, st *State,
 	if l.spec != nil {
 		invs = l.spec.Invariants
 	}
+	fx.loopPre[l.head] = st.Clone()
 	// 1. invariant holds on entry
 	for _, c := range invs {
-		t, err := fx.evalClause(c, &cenv{fx: fx, fn: fn, st: st, old: fx.entryFor(fn), con: con, body: true, binds: map[string]Value{}})
+		t, err := fx.evalClause(c, &cenv{fx: fx, fn: fn, st: st, old: fx.entryFor(fn), con: con, body: true, binds: map[string]Value{}, loopPre: fx.loopPre[l.head]})
 		if err != nil {
 			fx.addObl("shape", "inv:"+c.Label, err.Error(), reach, ts.False())
 			continue
@@ -686,7 +701,7 @@ func (fx *FuncExec) enterLoop(fn *ssa.Function, l *Loop, reach *Term, st *State,
 		h.wheap[k] = true
 	}
 	hreach := ts.And(reach, ts.Fresh(fmt.Sprintf("iter.L%d", l.ordinal), SBool))
-	for a := range wc {
+	for _, a := range sortedAllocs(wc) {
 		if _, ok := h.cells[a]; ok {
 			h.cells[a] = fx.freshValue("lp."+a.Comment, a.Type().(*types.Pointer).Elem(), h)
 			h.wcells[a] = true
@@ -698,6 +713,17 @@ func (fx *FuncExec) enterLoop(fn *ssa.Function, l *Loop, reach *Term, st *State,
 	}
 	sort.Strings(keys)
 	for _, k := range keys {
+		if strings.HasPrefix(k, "ghost:") {
+			gk := strings.TrimPrefix(k, "ghost:")
+			switch h.ghost[gk].(type) {
+			case VBool:
+				h.ghost[gk] = VBool{ts.Fresh("lp."+gk, SBool)}
+			case VInt:
+				h.ghost[gk] = VInt{ts.Fresh("lp."+gk, SInt)}
+			}
+			h.wheap[k] = true
+			continue
+		}
 		if k == allocKey {
 			old := fx.heapGet(h, allocKey, SInt)
 			nw := ts.Fresh("alloc.lp", SInt)
@@ -726,8 +752,29 @@ func (fx *FuncExec) enterLoop(fn *ssa.Function, l *Loop, reach *Term, st *State,
 		fx.addFact(hreach, a.eval(h))
 	}
 	fx.loopAutos[l.head] = autos
+	// the function's own frame is an invariant of each of its loops: what the loop forgets about a heap array is
+	// still known to agree with the entry value outside the `modifies` locations
+	if fn == fx.fn && con != nil && con.Opts["noframe"] == "" && fx.discover == 0 {
+		if fs := fx.frameSpecFor(fn, con); fs.err == nil {
+			var fk []string
+			for _, k := range keys {
+				if k == allocKey || strings.HasPrefix(k, "ghost:") || strings.HasPrefix(k, "box:") || fs.exempt[k] {
+					continue
+				}
+				if _, stable := fx.stableRefs[k]; stable {
+					continue
+				}
+				fx.addFact(hreach, fx.frameFormula(fs, k, h.heap[k]))
+				fk = append(fk, k)
+			}
+			if fx.loopFrames == nil {
+				fx.loopFrames = map[*ssa.BasicBlock][]string{}
+			}
+			fx.loopFrames[l.head] = fk
+		}
+	}
 	for _, c := range invs {
-		t, err := fx.evalClause(c, &cenv{fx: fx, fn: fn, st: h, old: fx.entryFor(fn), con: con, body: true, binds: map[string]Value{}})
+		t, err := fx.evalClause(c, &cenv{fx: fx, fn: fn, st: h, old: fx.entryFor(fn), con: con, body: true, binds: map[string]Value{}, loopPre: fx.loopPre[l.head]})
 		if err == nil {
 			fx.addFact(hreach, t)
 		}
@@ -760,12 +807,15 @@ func (fx *FuncExec) discoverWrites(fn *ssa.Function, l *Loop, st *State, con *Co
 	for round := 0; round < 4; round++ {
 		start := st.Clone()
 		start.wcells, start.wheap = map[*ssa.Alloc]bool{}, map[string]bool{}
-		for a := range wc {
+		for _, a := range sortedAllocs(wc) {
 			if _, ok := start.cells[a]; ok {
 				start.cells[a] = fx.freshValue("dw", a.Type().(*types.Pointer).Elem(), nil)
 			}
 		}
-		for k := range wh {
+		for _, k := range sortedStrings(wh) {
+			if strings.HasPrefix(k, "ghost:") {
+				continue
+			}
 			if s, ok := fx.eng.heapSorts[k]; ok {
 				start.heap[k] = fx.ts.Fresh("dw."+k, s)
 			}
@@ -938,11 +988,20 @@ func (fx *FuncExec) backEdge(fn *ssa.Function, l *Loop, n *node, cond *Term, st 
 	for _, a := range fx.loopAutos[l.head] {
 		fx.addObl("inv-preserve", fmt.Sprintf("loop%d:auto:%s", l.ordinal, a.label), "inferred counter bound", cond, a.eval(st))
 	}
+	if fn == fx.fn && con != nil {
+		if fs := fx.frameSpecFor(fn, con); fs.err == nil {
+			for _, k := range fx.loopFrames[l.head] {
+				if cur, ok := st.heap[k]; ok {
+					fx.addObl("inv-preserve", fmt.Sprintf("loop%d:auto:frame:%s", l.ordinal, k), "the function's frame holds at every iteration", cond, fx.frameFormula(fs, k, cur))
+				}
+			}
+		}
+	}
 	if l.spec == nil {
 		return
 	}
 	for _, c := range l.spec.Invariants {
-		t, err := fx.evalClause(c, &cenv{fx: fx, fn: fn, st: st, old: fx.entryFor(fn), con: con, body: true, binds: map[string]Value{}})
+		t, err := fx.evalClause(c, &cenv{fx: fx, fn: fn, st: st, old: fx.entryFor(fn), con: con, body: true, binds: map[string]Value{}, loopPre: fx.loopPre[l.head]})
 		if err != nil {
 			fx.addObl("shape", "inv:"+c.Label, err.Error(), cond, fx.ts.False())
 			continue
